@@ -110,16 +110,18 @@ class LocationPath(BaseASTNode):
         if old.issuperset(new): return intermediate
 
         def traverse(node, stack):
-            if node in visited: return
-
             if node in new:
                 intermediate.update(stack)
-            else:
-                stack = stack + [node]
-                for i in node.values():
-                    if queryIndirect or i.direct:
-                        traverse(i.node, stack)
-                visited.add(node)
+            if node in visited: return
+
+            # Always descend, even if the node itself is a match. There might
+            # be further matches below it that are only reachable through
+            # nodes that did not match.
+            stack = stack + [node]
+            for i in node.values():
+                if queryIndirect or i.direct:
+                    traverse(i.node, stack)
+            visited.add(node)
 
         for n in old: traverse(n, [])
 
